@@ -419,6 +419,22 @@ CLAIMED.update(
     }
 )
 
+CLAIMED.update(
+    {
+        "C31": (
+            "protocol agreement by table rules: name/position agreement of positional arguments across the process boundary, sent-tuple vs unpacked-names roles, getter/setter key sets, FIELD-COMPLETE sanitiser per result field, and abstract interpretation of assertion.clone under identity memos",
+            "Decides the protocol clauses that make the subprocess executor a faithful relay: every positional argument named like a parameter of its callee sits at that parameter's "
+            "position (process args -> _execute_test_cases_in_subprocess, the inner TestCaseExecutor(...), the super().__init__ call), so the child uses the parent's timeouts, observers "
+            "and bindings; the 5-tuple the child sends and the names the parent unpacks agree in length and role, the RNG state sent is installed, results are zipped strictly with the old "
+            "and new bindings, the child's tracer state is installed; the tracer state getter and setter use the same keys; _fix_result_for_pickle has a filter and a clear handler for "
+            "every ExecutionResult field that can carry SUT objects (plain int/bool fields exempt by annotation); interpreting clone() of all five reference-assertion classes for 3 sources "
+            "(plain, one and two attribute levels) x 3 identity/empty memos shows source and payload unchanged. Equality of the two executions themselves is not decided.",
+            "Trusts sa/engine/peval.py (class instantiation incl. super()), python's ast.",
+            "DESIGN.md §3 C31",
+        ),
+    }
+)
+
 NOT_APPLICABLE: dict[str, str] = {
     "C06": "Correctness of the post-dominator/CDG construction on every code object is functional correctness of a graph "
     "algorithm; no shape of the code implies it and no sound static argument in reach bounds 'all code objects'.",
